@@ -17,6 +17,54 @@ add('C13',
     BASE_NOTE + "Sparse/CuPy inputs of the slicing back-end are not run (dense numpy only).",
     "Coq proof (lia case analysis over slice normalisation) + vm_compute correspondence + exhaustive oracle box", "5/C13")
 
+CORR_NOTE = BASE_NOTE + ("The FFT product is modelled as exact cyclic convolution and the logarithm as a harness-supplied table over the exact "
+    "arguments x-min+1 computed by the model (fixed point 2^-20); float32 round-off is bounded only by the comparator tolerances; near ties of the "
+    "maximum are accepted when the model certifies them within tolerance (counted in the evidence). ")
+
+add('C08',
+    "Coq theorems for ALL numbers of peaks n >= 0 and buffer counts >= 1: the block loop writes out[i] = f(peak i) exactly for i in [0,n) (tail block, "
+    "bc > n, untouched entries beyond n), blocks cover each index exactly once, block sizes fit the buffer, get_buf_count bounds and byte limit; the "
+    "models of process_frame_fast/full are per-peak maps. Tie: get_buf_count on an exhaustive box, recorded block sequences of the real loops, pipeline "
+    "model vs outputs under permutation/duplication. Oracle: every buffer count 1..n+3 against each peak alone.",
+    CORR_NOTE + "'Bit-identical up to FFT batching' is float behaviour: sampled (1e-5 relative), not proved.",
+    "Coq proof (nia over floor division, fold invariant) + vm_compute correspondence + oracle sweep", "5/C08")
+add('C09',
+    "Coq theorems over ALL call histories: a call on any state (arbitrary crop-buffer slots and output arrays, either cropping back-end, any buffer count) "
+    "writes the pure per-peak results; induction over the list of earlier calls. Tie: the stateless Coq pipeline vs the last call of dirty histories on "
+    "the implementation; oracle: shared vs fresh buffers/outputs/pattern/matcher objects bit-identical over random histories.",
+    CORR_NOTE + "Within a block the model evaluates peaks sequentially (crop+evaluate per slot) whereas the code crops all slots of the block first; slots "
+    "of one block are distinct so the two orders coincide. The full-frame method's frame buffer is overwritten entirely by log_scale(out=): covered by the oracle only. "
+    "Pattern/matcher objects are pure functions of their parameters in the model; their re-use is checked on the implementation only.",
+    "Coq proof (state-machine invariant by induction over histories) + correspondence + history oracle", "5/C09")
+add('C03',
+    "Coq theorems: what the FFT pipeline computes (cyclic convolution rotated by N/2) IS the cross-correlation with the centred mask for every "
+    "centro-symmetric mask and every size of either parity; argmax = first maximum and attains the window maximum; clip radius / neighbourhood in bounds; "
+    "minimum-subtracted centre of mass; elevation = smallest slope over pixels at distance >= 1.5, attained, None iff no such pixel. Tie: the whole model "
+    "pipeline (crop, x-min+1, log table, exact convolution, argmax, COM, elevation) under vm_compute vs process_frame_fast/full on the same inputs; oracle: "
+    "definitions evaluated directly in float64 without FFT.",
+    CORR_NOTE + "numpy's FFT = cyclic convolution is assumed and sampled by the correspondence. JIT / bounds-checked / interpreted kernels: the thorough tier re-runs the oracle under NUMBA_DISABLE_JIT=1.",
+    "Coq proof (sum reindexing by a bijection, fold invariants, nia) + vm_compute correspondence + direct-correlation oracle", "5/C03")
+add('C04',
+    "Coq theorems: centre within [peak-c, peak+c-1] for any peak; a signed buffer stores it exactly (unsigned refuted: the repaired defect); |refined-centre| "
+    "<= r <= 2 as centre of mass of non-negative weights; denominator > 0 at the first maximum for ANY data (no 0/0); all reads in bounds; elevation finite "
+    "for maps >= 4x4; upsampled grid within 0.75+0.5/u. Tie: store_int vs numpy for the dtypes actually returned, spied upsampled region size, pipeline model vs "
+    "outputs. Oracle: the statement on NaN-guarded frames.",
+    CORR_NOTE + "Finiteness under float32 overflow is outside the model (|values| <= 1e6 sampled). The upsampled DFT is not modelled, only its index skeleton.",
+    "Coq proof (lia/nia, fold invariants) + correspondence + well-formedness oracle", "5/C04")
+add('C14',
+    "Coq theorems: the crop-based pipeline model is exactly translation-equivariant when windows stay inside both frames (positions move, height and centre "
+    "of mass do not); cyclic shift resp. transposition of the data shifts resp. transposes the correlation map; x-min+1 is offset-invariant. Tie: model vs "
+    "implementation on base/rolled/offset inputs; oracle: metamorphic relations on the implementation (also with upsampling for translation).",
+    CORR_NOTE + "Axis-swap equivariance of argmax needs a unique maximum (first-maximum rule is not swap symmetric): ties are recognised with the direct map and skipped. "
+    "Float32 rounding under cyclic shifts and large offsets: tolerance only.",
+    "Coq proof (reindexing of sums, list lemmas) + correspondence + metamorphic oracle", "5/C14")
+add('C15',
+    "Coq theorem: with promotion before subtracting, the argument of the logarithm is exactly x-min+1 for every integer width/signedness and floats; the "
+    "un-promoted arithmetic is refuted with witnesses (repaired defects). Tie: model argument vs exp() of log_scale / log_scale_cropbufs_inplace outputs on "
+    "arrays containing dtype extremes. Oracle: both batch entry points in 10 dtypes vs float64.",
+    CORR_NOTE + "Rounding of x-min+1 itself in float32 (up to 2^25+1) is outside the theorem and inside the property's 'to float32 rounding' allowance.",
+    "Coq proof (by computation on the dtype model) + correspondence + dtype sweep oracle", "5/C15")
+
 NOT_YET = "check not built yet in this round (work in progress; design in DESIGN.md section 5)"
 
 def main():
